@@ -8,9 +8,12 @@ Oracle (location): k = index of the first token whose prefix the library's parse
 parsing* (no position arithmetic) and confirmed against the Earley recogniser of the bare grammar; the message must
 show the source line of token k (verbatim, or with comments as blanks; blank-normalised) as its last '>' line and
 carets exactly over token k's source characters in that shown line; for end-of-input one caret just after the last token.  Lexer errors:
-the first character the token tiling cannot continue with (own whitespace/comment skip), raw source line, one caret.
+the first character the token tiling cannot continue with (own whitespace/comment skip), raw source line, one caret;
+when the tokens before that character are already rejected at a token, the syntax error of that token is what must be
+reported (judged like any other syntax error over the tokens before the character).
 Oracle (suggestions): every concrete suggested string, put after the viable prefix in the source text, must be
-shifted by the parser (failure, if any, strictly after it) and be a terminal the bare grammar expects there.
+shifted by the parser (failure, if any, strictly after it) and be a terminal the bare grammar expects there; when a
+grammar action rejects that probe, the bare grammar alone decides (a terminal no sentence continues with is a failure).
 """
 import re
 from hypothesis import strategies as st
@@ -23,7 +26,7 @@ PROPERTY = 'C19'
 D = 'mindsdb'
 RULE = ('cases = texts for parse_sql(text, "mindsdb"): token edits (delete/dup/replace/insert/swap/truncate/garbage) of '
         'corpus statements and grammar derivations re-laid-out over lines with leading blanks / blank lines / comments, '
-        'text-level edits keeping the original layout, illegal characters, every truncation of the production-pair sentences of the mindsdb grammar; judged = rejected by the syntax-error path '
+        'text-level edits keeping the original layout (one stray quote among them), illegal characters, a token edit with an illegal character further on, statements that a grammar action rejects followed by a token they cannot go on with, every truncation of the production-pair sentences of the mindsdb grammar; judged = rejected by the syntax-error path '
         'or the lexer; non-trivial = judged and (error token not first, or input has several lines, or a comment '
         'precedes the error); distinct by text')
 ASSUMPTIONS = ['"first token the grammar cannot accept" is located by bisection over prefix parses, i.e. assumes the LR '
@@ -35,14 +38,21 @@ ASSUMPTIONS = ['"first token the grammar cannot accept" is located by bisection 
                'which and how many context lines precede the error line is left open (each must be a source line)',
                'suggestion acceptability = the parser shifts it after the viable prefix (weak reading: the rest of the '
                'statement need not parse)',
-               'rejections raised by grammar actions, "Empty input" and internal errors are outside the property']
+               'rejections raised by grammar actions, "Empty input" and internal errors are outside the property (texts '
+               'rejected at a token are inside it also when a prefix of them, taken alone, is rejected by an action: '
+               'such a prefix counts as acceptable, and a suggestion whose probe an action rejects is judged by the '
+               'bare grammar alone: it is a failure only when no sentence continues the prefix with it)',
+               'when the tokens before an illegal character are already rejected at a token, the message has to be '
+               'the syntax error message of that token (the first thing the grammar cannot accept)']
 FLOORS = {'quick': {'tok': 2300, 'eof': 900, 'lex': 700, 'multi-line': 2900, 'comment-before-error': 1200,
                     'leading-blank': 1700, 'tok-after-line1': 1000, 'eof-after-line1': 450, 'lex-line3': 330,
                     'sugg-cases': 500, 'sugg-concrete-items': 1700, 'sugg:list-at-token': 100,
+                    'illegal-after-syntax-error': 220, 'origin:after-action-reject': 450,
                     '__nontrivial__': 3000},
           'thorough': {'tok': 120000, 'eof': 40000, 'lex': 38000, 'multi-line': 145000, 'comment-before-error': 60000,
                        'leading-blank': 85000, 'tok-after-line1': 54000, 'eof-after-line1': 21000, 'lex-line3': 16000,
                        'sugg-cases': 25000, 'sugg-concrete-items': 84000, 'sugg:list-at-token': 5300,
+                       'illegal-after-syntax-error': 220, 'origin:after-action-reject': 450,
                        '__nontrivial__': 148000}}
 N = {'quick': 1000, 'thorough': 50000}
 
@@ -50,6 +60,24 @@ COMMENT_RE = re.compile(r'--[^\n]*|/\*[\s\S]*?\*/')
 CARET_RE = re.compile(r'(-+)(\^+)')
 PLACEHOLDERS = ('[identifier]', '[number]', '[string]')
 ILLEGAL = ['#', '\\', '§', '^', '&', '!', '|', '@', 'é', '"', "'", '`', '中']
+
+# complete statements that a grammar action rejects (the semantic checks of the actions: types of LIMIT / OFFSET,
+# boolean WHERE / HAVING, order and number of the clauses, dotted aliases, PRIMARY KEY columns, unary minus, '*' where
+# a name is needed, required parameters)
+ACTION_REJECTED = [
+    'CREATE TABLE t (PRIMARY KEY (a))', 'CREATE TABLE t (a INT, PRIMARY KEY (b))', 'CREATE TABLE t (a INT, b INT, PRIMARY KEY (a, c))',
+    'CREATE TABLE t (a INT, PRIMARY KEY (a) NOT NULL)', 'CREATE OR REPLACE TABLE d.t (PRIMARY KEY (a))',
+    'CREATE TABLE IF NOT EXISTS t (PRIMARY KEY (a, b))',
+    'SELECT * FROM t1 LIMIT 1.5', 'SELECT * FROM t1 LIMIT NULL', "SELECT * FROM t1 LIMIT 1, 'a'",
+    "SELECT * FROM t1 LIMIT 1 OFFSET 'x'", 'SELECT * FROM t1 LIMIT 2, 1 OFFSET 2', 'SELECT a FROM t WHERE a',
+    'SELECT a FROM t GROUP BY a HAVING a', 'SELECT a WHERE a = 1', 'SELECT a FROM t LIMIT 1 WHERE x = 1',
+    'SELECT a FROM t LIMIT 1 LIMIT 2', 'SELECT a AS b.c FROM t', 'SELECT a b.c FROM t', 'SELECT * FROM t AS a.b',
+    'SELECT * FROM t a.b', 'SELECT - NULL', "SELECT -'a'", 'SELECT a.*(1)', 'SET CHARSET - NULL',
+    'SELECT 1 UNION SELECT 2 LIMIT 1 WHERE a = 1', 'CREATE SKILL s USING a = 1', "CREATE CHATBOT c USING model = 'm'",
+    "CREATE CHATBOT c USING database = 1, model='m'", 'SELECT * FROM t USING a.* = 1',
+    'CREATE MODEL m PREDICT a USING b.* = 1']
+# what is put after them: a token the statement cannot go on with
+AFTER_REJECTED = ['x', ')', ',', '1', "'s'", 'FROM', 'NULL', '(', '=', 'AND', '.', 'UNION SELECT 1 x']
 
 _S = {}
 
@@ -71,6 +99,10 @@ def prepare(tier):
     _S['texts'] = texts
     _S['rejected'] = [x['sql'] for x in corpus.rejected(D)]
     _S['keyword_types'] = set(gg.kw)
+    # statements in which every token is acceptable and a grammar action rejects the whole: one per rejection site of
+    # the grammar actions, and those of the corpus (kept when the library in fact rejects them that way)
+    pool = ACTION_REJECTED + [strip(x) for x in _S['rejected']]
+    _S['action_rejected'] = [x for i, x in enumerate(pool) if x not in pool[:i] and status(x)[0] == 'action']
     _S['lexemes'] = gg.all_lexemes('lite') + ["'a\nb'", '@v', "'it''s'", "''", '@@sv', '"a\\"b"']
 
 
@@ -164,7 +196,7 @@ def line_groups(s, spans):
 
 def first_unacceptable(s, spans, col):
     """Index k of the first token such that the prefix ending with it fails at a token (the full text does).
-    None when a prefix is rejected by a grammar action / internal error (inconclusive)."""
+    None when a prefix is rejected by an internal error (inconclusive)."""
     n = len(spans)
     types = [x[0] for x in spans]
     kE = _S['g'].viable_prefix_len(types)
@@ -186,8 +218,13 @@ def first_unacceptable(s, spans, col):
             hi = m
         elif r in ('ok', 'eof', 'empty'):
             lo = m
+        elif r == 'action':
+            # a grammar action rejects the prefix at its end.  Were one of its tokens unacceptable, the parser would
+            # have met it exactly as in the full text (same tokens, same actions up to there) and failed at a token
+            lo = m
+            col.cls('a-prefix-is-rejected-by-a-grammar-action')
         else:
-            col.excluded('a prefix is rejected by a grammar action / internal error')
+            col.excluded('a prefix is rejected by an internal error')
             return None, kE
     return hi - 1, kE
 
@@ -268,6 +305,18 @@ def judge_lex(s, msg, cfg, out, sql):
     if s[:1] in ' \t\n':
         cl.append('leading-blank')
     feats = ['multi-line' if multi else 'one-line', 'error-on-first-line' if li == 0 else 'error-on-later-line']
+    # the tokens before the illegal character: when the parser cannot extend them (their text fails at a token, which
+    # the bare grammar confirms), the first thing the grammar cannot accept is that token, not the character further on
+    if spans:
+        head = status(guard(s[:spans[-1][3]]))[0]
+        kE = _S['g'].viable_prefix_len([x[0] for x in spans])
+        if head == 'tok':
+            cl.append('illegal-after-syntax-error')
+            bad('lex-hides-syntax-error', ['syntax-error-before-illegal-character',
+                                           'bare-grammar-agrees' if kE < len(spans) else 'parser-stricter-than-grammar'],
+                'the text before the illegal character at %d is rejected at a token (bare grammar: token %d %r of %d), '
+                'the message is about the character' % (p, kE, spans[kE][1] if kE < len(spans) else None, len(spans)))
+            return True, cl
     m = msg.split('\n')
     if m[0] != 'Illegal character %r:' % s[p]:
         bad('lex-wrong-character', feats, 'expected header %r' % ('Illegal character %r:' % s[p]))
@@ -287,6 +336,10 @@ def judge_lex(s, msg, cfg, out, sql):
 def judge_syntax(s, kind, msg, cfg, out, sql, col):
     spans = mutate.lex_spans(_S['lexer'], s)
     cl = []
+    if spans is None:
+        # a syntax error message for a text with an illegal character: the error must be among the tokens before it
+        spans, _ = lex_until_error(s)
+        cl.append('illegal-after-syntax-error')
     if not spans:
         col.excluded('no tokens')
         return False, None
@@ -431,6 +484,15 @@ def judge_syntax(s, kind, msg, cfg, out, sql, col):
                 continue
             r = status(guard(text2))[0]
             if r in ('action', 'crash', 'empty'):
+                if r == 'action' and ity and ity[0] not in exp:
+                    # a grammar action rejects the probe, so the parser does not tell whether it shifted the suggested
+                    # token; the bare grammar does: no sentence continues the prefix with it, an LR parser cannot shift it
+                    col.cls('sugg:probe-rejected-by-action-and-outside-grammar')
+                    bad('suggestion-not-acceptable', 'make_suggestion', feats + ['probe-rejected-by-grammar-action',
+                                                                                   'not-expected-by-bare-grammar'],
+                        'suggested %r: %r is rejected by a grammar action and %s cannot follow the prefix in the bare '
+                        'grammar (expected there: %s)' % (item, text2[-60:], ity[0], sorted(exp)[:8]))
+                    continue
                 col.excluded('suggestion probe rejected by a grammar action / internal error')
                 continue
             if r in ('tok', 'lex'):
@@ -489,7 +551,16 @@ def lines_layout(draw, tokens):
 def cases(draw):
     gg = grammar.get(D)
     mode = draw(st.sampled_from(['tok-mut', 'tok-mut', 'tok-mut', 'tok-mut', 'text-edit', 'text-edit', 'illegal',
-                                 'rejected', 'truncate']))
+                                 'rejected', 'truncate', 'illegal-after-error', 'after-action-reject']))
+    if mode == 'after-action-reject':
+        # a statement that a grammar action rejects, followed by (or cut before its last token and followed by) a
+        # token it cannot go on with: the parser is in an error state whose reductions raise
+        toks = mutate.source_tokens(_S['lexer'], draw(st.sampled_from(_S['action_rejected'])))
+        if draw(st.integers(0, 3)) == 0:
+            toks = toks[:-1]
+        toks = toks + draw(st.sampled_from(AFTER_REJECTED + _S['lexemes'])).split(' ')
+        sql = ' '.join(toks) if draw(st.booleans()) else draw(rich_layout(toks))
+        return {'sql': sql, 'origin': 'after-action-reject'}
     if mode == 'text-edit':
         # edit the original text of a corpus statement, keeping its layout
         i = draw(st.integers(0, len(_S['texts']) - 1))
@@ -497,8 +568,13 @@ def cases(draw):
         sp = mutate.lex_spans(_S['lexer'], s)
         j = draw(st.integers(0, len(sp) - 1))
         (_, src, a, b) = sp[j]
-        kind = draw(st.sampled_from(['delete', 'dup', 'replace', 'insert', 'truncate']))
-        if kind == 'delete':
+        kind = draw(st.sampled_from(['delete', 'dup', 'replace', 'insert', 'truncate', 'stray-quote']))
+        if kind == 'stray-quote':
+            # one quote character too many: the rest of the text is tokenised differently, often up to a quote that
+            # nothing closes (an illegal character after the token the grammar cannot accept)
+            q = draw(st.sampled_from(["'", '"', '`']))
+            sql = s[:a] + q + (' ' if draw(st.booleans()) else '') + s[a:]
+        elif kind == 'delete':
             sql = s[:a] + s[b:]
         elif kind == 'dup':
             sql = s[:b] + ' ' + src + s[b:]
@@ -523,6 +599,9 @@ def cases(draw):
     elif mode == 'illegal':
         toks = list(base)
         kind = 'illegal'
+    elif mode == 'illegal-after-error':
+        # a token edit and, further on, an illegal character: the syntax error comes first
+        kind, toks = draw(mutate.mutation(base, _S['lexemes']))
     else:
         kind, toks = draw(mutate.mutation(base, _S['lexemes']))
         if draw(st.integers(0, 5)) == 0:
@@ -536,6 +615,11 @@ def cases(draw):
         sql = draw(lines_layout(toks))
     else:
         sql = draw(mutate.layout(toks))
+    if mode == 'illegal-after-error':
+        ch = draw(st.sampled_from(ILLEGAL))
+        ends = [m_.end() for m_ in re.finditer(r'\S+', sql)] or [0]
+        p = draw(st.sampled_from(ends[len(ends) // 2:]))
+        sql = sql[:p] + draw(st.sampled_from([' ', '', '\n'])) + ch + sql[p:]
     if mode == 'illegal':
         ch = draw(st.sampled_from(ILLEGAL))
         where = draw(st.sampled_from(['char', 'gap', 'gap']))
@@ -560,6 +644,16 @@ def run_shard(col, k, nshards, tier, seed):
         sp = mutate.lex_spans(_S['lexer'], s)
         for (_, _, a, b) in sp[1:]:
             det.append({'sql': s[:a], 'origin': 'truncate-all:corpus'})
+    # every statement a grammar action rejects, followed by each of a list of tokens it cannot go on with
+    for x in _S['action_rejected']:
+        for t in AFTER_REJECTED:
+            det.append({'sql': x + ' ' + t, 'origin': 'after-action-reject:all'})
+    # a syntax error and an illegal character after it: the rejected statements of the corpus and the same-tail family
+    # with an illegal character (in the same line, in a later line) at the end
+    from vf.props.c20 import ERR_HEADS, ERR_TAILS
+    for x in [strip(y) for y in _S['rejected']] + [h + ' ' + t for t in ERR_TAILS for h in ERR_HEADS]:
+        for t in (' #', '\n  !', " 'x"):
+            det.append({'sql': x + t, 'origin': 'illegal-after-error:all'})
     for i, c in enumerate(det):
         if i % nshards == k:
             for rec in judge(c, col):
@@ -584,6 +678,9 @@ def run_shard(col, k, nshards, tier, seed):
             for rec in judge(c, col):
                 col.fail(rec, c)
     if k == 0:
+        col.exhaustive_parts.append('%d statements rejected by a grammar action x %d following tokens; the rejected '
+                                    'corpus statements and the same-tail family x 3 illegal endings'
+                                    % (len(_S['action_rejected']), len(AFTER_REJECTED)))
         col.exhaustive_parts.append('every truncation at a token boundary of %s production-pair sentence of the '
                                     'mindsdb grammar' % ('every 4th' if tier == 'quick' else 'every'))
         col.exhaustive_parts.append('every truncation at a token boundary of %s corpus statement (original layout); '
